@@ -616,6 +616,33 @@ theorem submodule_mode_is_no_link : isSymlinkMode 0o160000 = false := by decide
 theorem regular_mode_is_no_link : isSymlinkMode 0o100644 = false := by decide
 theorem directory_mode_is_no_link : isSymlinkMode 0o040000 = false := by decide
 
+/-! ### a `chmod` which fails (D105) -/
+
+/-- **a `chmod` which fails is no trouble if there is nothing to change**: the operation is counted, nothing is thrown, the tree and
+    the trace are as they were (`filesystem::permissions` on a file of someone else which may be written to; `-o /dev/null`) -/
+theorem chmod_fault_tolerated (p : Bytes) (m : Nat) (s : DState) (hf : s.faultAt = some s.opCount)
+    (hm : hasMode (s.fs.stat (absPath s p)) m = true) :
+    run (opChmod p m) s = (.ok ⟨⟩, { s with opCount := s.opCount + 1 }) := by
+  rw [run_opChmod, hf, hm]; simp
+
+/-- … and an error as before if there is: the permissions differ, or the path is not there -/
+theorem chmod_fault_fatal (p : Bytes) (m : Nat) (s : DState) (hf : s.faultAt = some s.opCount)
+    (hm : hasMode (s.fs.stat (absPath s p)) m = false) :
+    run (opChmod p m) s = (.error .systemError, { s with opCount := s.opCount + 1 }) := by
+  rw [run_opChmod, hf, hm]; simp
+
+/-- the permission callback after a write which kept the permissions (no new mode in the patch; the file is re-created with its old
+    mode): a failing `chmod` does not fail the run -/
+theorem callback_fault_tolerated (perm : PermResult) (p : Bytes) (m : Nat) (s : DState) (b : Bytes)
+    (hold : perm.oldPerms = some m) (hfile : s.fs.stat (absPath s p) = some (.file b m)) (hf : s.faultAt = some s.opCount) :
+    run (permissionCallback 0 perm p) s = (.ok ⟨⟩, { s with opCount := s.opCount + 1 }) := by
+  unfold permissionCallback
+  simp only [bne_self_eq_false, Bool.false_eq_true, if_false, hold]
+  exact chmod_fault_tolerated p m s hf (by rw [hfile]; simp [hasMode])
+
+#print axioms chmod_fault_tolerated
+#print axioms chmod_fault_fatal
+#print axioms callback_fault_tolerated
 #print axioms submodule_mode_is_no_link
 #print axioms readonly_fail_untouched
 #print axioms fixPermissions_reads_only
